@@ -7,8 +7,10 @@ TARGETS = ["Base/Corr.vo", "C19/Model.vo", "C19/ModelP.vo", "C19/ModelW.vo", "C1
            "C19/ProofsRun.vo", "C19/ProofsIter.vo", "C19/ProofsIds.vo", "C19/ProofsPar.vo", "C19/ProofsNext.vo", "C19/Proofs.vo",
            "C19/Props.vo",
            "C19/ProofsW1.vo", "C19/ProofsW2.vo", "C19/ProofsW3.vo", "C19/ProofsW4.vo", "C19/ProofsFlag.vo",
-           "C19/ProofsW6.vo", "C19/ProofsW5.vo", "C19/PropsW.vo"]
-PROPS = ["C19/Props.v", "C19/PropsW.v"]
+           "C19/ProofsW6.vo", "C19/ProofsW5.vo", "C19/PropsW.vo",
+           "C19/ModelH.vo", "C19/ProofsH1.vo", "C19/ProofsH2.vo", "C19/ProofsH3.vo", "C19/ProofsH4.vo", "C19/ProofsH5.vo",
+           "C19/ProofsSafe.vo", "C19/PropsH.vo"]
+PROPS = ["C19/Props.v", "C19/PropsW.v", "C19/PropsH.v"]
 PARTIAL = ("Proved in Coq for ALL operation histories with int64 keys. About the value-level world model coq/C19/Model.v: "
            "(1) every tree of every reachable world is a search tree whose balance fields equal the height difference "
            "and lie in -1..1 (hence 2^(h/2) <= n+1); (2) the whole observable run (Insert/Delete flags, FindNode, "
@@ -29,16 +31,63 @@ PARTIAL = ("Proved in Coq for ALL operation histories with int64 keys. About the
            "(hence observes what Model.v observes); (8) Deleted flag: delete flags the found object in all three cases, the "
            "flagged object is exactly the one leaving the reachable set, a cell is flagged iff unreachable, regions never "
            "lose objects; (9) the balanced flag of insert/delete/deleteRec/balance1/balance2 is true iff the subtree height "
-           "did not change, with balance1/balance2's flag given per branch. NOT proved: the step from the literal "
-           "setLeft/setRight statement sequences of avl-tree.go to the tree-shaped pointer model (ModelP.protLL etc.) — "
-           "the models are tied to the implementation by the correspondence only: every step of every generated history is "
-           "compared on flags, values, tree checksum, key lists and on a checksum of the WHOLE heap as Go has it (node "
+           "did not change, with balance1/balance2's flag given per branch. "
+           "About the statement-level model coq/C19/ModelH.v (the literal statement lists of setLeft, setRight, rotateLL/LR/RR/RL, "
+           "replace, balance1, balance2, REGENERATED from avl-tree.go by go2coq_c19 on every run with Coq checking gen_body m = body m, "
+           "and an interpreter on a flat heap of node objects where a nil dereference is a panic): (10) on ANY heap holding a tree "
+           "of the shape the rotation dereferences (addresses distinct) each of the four rotation statement lists does not panic, "
+           "leaves a heap holding exactly ModelP.protLL/LR/RR/RL of the tree and writes to no other object; setLeft/setRight are the "
+           "child-pointer + Parent update on any heap; replace leaves the node ModelP.pdel builds and the nil-pointer tombstone "
+           "ModelW.stale_cell records, returns node, frame. (11) SafeIterator/SafeIteratorFrom (= Clone; Iterator[From] on a clone only "
+           "the iterator references; also indexSafeIterator[From]): in every reachable world and for any later history not mutating "
+           "the hidden clone, the iterator starts on the least key (>= i) of the source at creation, the clone's key list stays that "
+           "snapshot, and every Next moves to the first SNAPSHOT key greater than the cursor. NOT proved: balance1/balance2 statement "
+           "lists = ModelP.pbalance1/2 (tied by the translator and run on examples only); the recursive insert/delete/deleteRec are "
+           "modelled tree-shaped (ModelP), not as statement lists on the heap, so the step heap-level recursion -> pins/pdel/pdelmax "
+           "(which call the statement-level methods proved above) rests on the correspondence: every step of every generated history is "
+           "compared on flags, values, tree checksum (read through Emtpy/Value/Left/Right), key lists and on a checksum of the WHOLE heap as Go has it (node "
            "identities numbered in allocation order, Left/Right/Parent pointers, Deleted flags, unlinked objects with the "
-           "fields they were left with, the node pointer of every iterator via the add-only hook verif_c19.go). The "
+           "fields they were left with, the node pointer of every iterator via the add-only hook verif_c19.go; Safe iterators are one "
+           "Go call compared with the two model steps Clone; Iterator[From], the hidden clone's objects included; one third of the "
+           "histories run through the vector_sparse_index.go wrappers via verif_c19h.go, where indexInsert/indexDelete drop the flag "
+           "and it is observed as a change of the number of reachable objects). AvlNode.string / AvlTree.String are not modelled. The "
            "refinement ModelW -> Model is an equation for every step other than Clone (erase(pwstep w o) = step(erase w) o on "
            "trees, tombstones, iterators and the complete output, up to Model.v's per-tree allocation counters) and "
            "observational across Clone (same output, shape-equal appended tree; both worlds refine the set specification) "
            "because Model.v's Clone reuses node ids while the pointer model allocates fresh objects. int is modelled as Z with the int64 wrap written explicitly where the code computes value+1.")
+
+
+def translate(ctx):
+    """Regenerate the statement lists of the non-recursive AvlNode methods from vlib.REPO/avl-tree.go and let
+    Coq decide that they are the lists of coq/C19/ModelH.v (the ones the PropsH theorems are about)."""
+    tool, tlog = vlib.build_tool("go2coq_c19", "go2coq_c19")
+    if tool is None:
+        ctx.oblige(1, 0)
+        return [{"target": "go2coq_c19 build", "lemma": None, "errors": [tlog[-1500:]]}]
+    gen = os.path.join(ctx.dir, "GenAvl.v")
+    rep = os.path.join(ctx.dir, "gen_report.json")
+    for f in (gen, rep):
+        if os.path.exists(f):
+            os.remove(f)
+    rc, out = vlib.sh([tool, "-repo", vlib.REPO, "-out", gen, "-report", rep], timeout=120, env=vlib.go_env())
+    if not os.path.exists(rep):
+        ctx.oblige(1, 0)
+        return [{"target": "go2coq_c19 run", "lemma": None, "errors": [out[-1500:]]}]
+    report = json.load(open(rep))
+    ctx.cov["translator"] = report
+    if not report.get("ok") or not os.path.exists(gen):
+        ctx.oblige(1, 0)
+        return [{"target": "go2coq_c19: a method of avl-tree.go is outside the translated statement grammar (tie lost)",
+                 "lemma": None, "errors": [json.dumps(report.get("unsupported") or report.get("parse_errors"))[:1500]]}]
+    rc, out = vlib.coqc_file(gen, timeout=300)
+    ctx.oblige(1, 1 if rc == 0 else 0)
+    if rc != 0:
+        errs = vlib.coq_errors(out)
+        lemma = vlib.enclosing_lemma(gen, errs[0]["line"]) if errs else None
+        return [{"target": "GenAvl.v: the statement list regenerated from avl-tree.go is not the one of coq/C19/ModelH.v",
+                 "lemma": lemma, "errors": errs[:3] or [out[-800:]]}]
+    ctx.log("translator: 9 method bodies of avl-tree.go regenerated; Coq: gen_body m = ModelH.body m for every m")
+    return []
 
 
 def corr(ctx, binary, n, corpus):
@@ -101,8 +150,14 @@ def run(ctx):
     ok, failures = vlib.proof_stage(ctx, TARGETS, PROPS)
     thms = vlib.theorem_names(os.path.join(vlib.COQ, "C19/Props.v"))
     thmsw = vlib.theorem_names(os.path.join(vlib.COQ, "C19/PropsW.v"))
+    thmsh = vlib.theorem_names(os.path.join(vlib.COQ, "C19/PropsH.v"))
     if ok:
-        ctx.cov["print_assumptions"] = vlib.print_assumptions("C19", [("C19.Props", thms), ("C19.PropsW", thmsw)], ctx.dir)
+        ctx.cov["print_assumptions"] = vlib.print_assumptions(
+            "C19", [("C19.Props", thms), ("C19.PropsW", thmsw), ("C19.PropsH", thmsh)], ctx.dir)
+    tf = translate(ctx)
+    if tf:
+        ok = False
+        failures = failures + tf
     binary, blog = vlib.build_harness("c19")
     if binary is None:
         ctx.violation({"obligation": "build of harness/c19 against /repo", "log": blog[-3000:]}, False,
